@@ -439,9 +439,9 @@ def model_export_to_file(f, model=None, repo=None):
     Returns:
         Nothing
     """
-    if not model and not repo:
+    if model is None and repo is None:
         raise Exception("specify either a model or a repo")
-    if model and repo:
+    if model is not None and repo is not None:
         raise Exception("specify either a model or a repo")
 
     processed_set = set()
